@@ -353,6 +353,26 @@ func c02Gen(t *rapid.T) c02Case {
 	if rapid.Bool().Draw(t, "preUnsigned") {
 		v = v.with("unsigned", jgenValue(t, o, 1, "uns"))
 	}
+	if rapid.IntRange(0, 4).Draw(t, "lookAlike") == 0 {
+		// members whose names are NOT "signatures" / "unsigned" but fold to them: ordinary members,
+		// signed like any other and left alone by signing
+		n := rapid.IntRange(1, 2).Draw(t, "nLookAlike")
+		for i := 0; i < n; i++ {
+			k := rapid.SampledFrom([]string{"Signatures", "SIGNATURES", "ſignatures", "signatureſ", "Unsigned", "UNSIGNED", "unſigned", "signatureS", "unsigneD"}).Draw(t, "lookAlikeKey")
+			var val jv
+			switch rapid.IntRange(0, 3).Draw(t, "lookAlikeVal") {
+			case 0:
+				val = jstr("hello")
+			case 1:
+				val = jobj("other.example", jobj("ed25519:9", c02FakeSig(fmt.Sprint("la", i))))
+			case 2:
+				val = jobj("x", jnum(2))
+			default:
+				val = jgenValue(t, o, 1, "lav")
+			}
+			v = v.with(k, val)
+		}
+	}
 	c.Obj = vfBytes(jspell(t, v, "p"))
 	nl := rapid.IntRange(0, 3).Draw(t, "nlater")
 	for i := 0; i < nl; i++ {
